@@ -152,7 +152,7 @@ func (g *VCGen) modLoc(env *SpecEnv, e Expr) []modLoc {
 		i := env.tr(x.I)
 		if s.Sort == "Slice" && s.Go != nil {
 			et := s.Go.Underlying().(*types.Slice).Elem()
-			lo := fmt.Sprintf("(+ (s.off %s) %s)", s.T, i.T)
+			lo := fmt.Sprintf("(sidx (s.off %s) %s)", s.T, i.T)
 			return []modLoc{{heap: g.so.sliceHeapFor(et), kind: "elems", ref: fmt.Sprintf("(s.base %s)", s.T), lo: lo, hi: "(+ 1 " + lo + ")"}}
 		}
 	}
